@@ -31,7 +31,7 @@ BOUNDS = {
 }
 # cut kinds that must be present by construction (counted, not assumed)
 MUST_KINDS = ("in_char", "cr_lf", "between_lines", "before_blank", "in_line")
-BATCH_PAIRS = 400_000  # (stream, chunking) pairs per monitor run
+BATCH_PAIRS = 300_000  # (stream, chunking) pairs per monitor run (a two-stream schedule counts 3: it carries more values)
 HEAP = "3g"
 # FeedAll / DecFrom recurse once per character and TLC's interpreter needs many Java frames per level: with the default
 # thread stack a 50-character chunk occasionally ended in a StackOverflowError (before the JIT had compiled the
@@ -208,7 +208,7 @@ def judge(chk: Check, traces: list[dict], label: str) -> None:
     batches: list[list[dict]] = [[]]
     size = 0
     for t in traces:
-        n = len(t["chunkings"]) if t["kind"] == "single" else len(t["runs"])
+        n = len(t["chunkings"]) if t["kind"] == "single" else 3 * len(t["runs"])
         if batches[-1] and size + n > BATCH_PAIRS:
             batches.append([])
             size = 0
